@@ -60,6 +60,13 @@ func genC04(e *emitter, tier string) {
 			e.emit(opCase("matmul-bad", "MatMul", nil, []*TJ{a, b}, nil))
 		}
 	}
+	// batch extents that are both > 1 and differ (not broadcastable), either operand the larger
+	for _, pr := range [][2][]int{{{3}, {2}}, {{2}, {3}}, {{3, 1}, {2, 1}}, {{2, 3}, {2, 2}}, {{1, 3}, {2, 2}}, {{3}, {1, 2}}, {{4, 2}, {2, 2}}} {
+		a := smallT("f32", append(append([]int{}, pr[0]...), 2, 3), k)
+		b := smallT("f32", append(append([]int{}, pr[1]...), 3, 2), k+1)
+		k++
+		e.emit(opCase("matmul-bad", "MatMul", nil, []*TJ{a, b}, nil))
+	}
 	// vectors: v.v, v.M, M.v, v.batch, batch.v
 	for _, kk := range exts {
 		for _, n := range exts {
